@@ -15,15 +15,27 @@ gvars == <<vars, hist>>
 PrimeAll == [s \in Sess |-> TRUE]
 PrimeNone == [s \in Sess |-> FALSE]
 PrimeMixed == [s \in Sess |-> s = "s1"]
+C(store, json, stateless, prime) == [store |-> store, json |-> json, stateless |-> stateless, prime |-> prime]
+\* configuration sets used by the .cfg files
+CfgStorePrime == {C(TRUE, FALSE, FALSE, PrimeAll)}
+CfgStoreNoPrime == {C(TRUE, FALSE, FALSE, PrimeNone)}
+CfgStoreBoth == {C(TRUE, FALSE, FALSE, PrimeAll), C(TRUE, FALSE, FALSE, PrimeNone)}
+CfgStoreMixed == {C(TRUE, FALSE, FALSE, PrimeMixed)}
+CfgPlainSse == {C(FALSE, FALSE, FALSE, PrimeMixed)}
+CfgPlainJson == {C(FALSE, TRUE, FALSE, PrimeMixed)}
+CfgStoreJson == {C(TRUE, TRUE, FALSE, PrimeMixed)}
+CfgStateless == {C(FALSE, FALSE, TRUE, PrimeAll), C(FALSE, TRUE, TRUE, PrimeAll), C(TRUE, FALSE, TRUE, PrimeAll)}
+CfgAll == {C(st, js, sl, pr) : st \in BOOLEAN, js \in BOOLEAN, sl \in BOOLEAN, pr \in {PrimeAll, PrimeMixed}}
+CfgRouting == {C(FALSE, FALSE, FALSE, PrimeMixed), C(FALSE, TRUE, FALSE, PrimeMixed)}
 
 H(q) == hist' = hist \o q
 IdxName(i) == IF i = -1 THEN "none" ELSE ToString(i)
 
 EPost(s, r) == Post(s, r) /\ H(<<"post|" \o s \o "|" \o r>>)
 EEmit(s, r, g) == HEmit(s, r, g) /\ H(IF g THEN <<"gateA|" \o s \o "|" \o r, "emit|" \o s \o "|" \o r>> ELSE <<"emit|" \o s \o "|" \o r>>)
-ESreq(s, r) == HSreq(s, r) /\ H(<<"sreq|" \o s \o "|" \o r>>)
+ESreq(s, r, g) == HSreq(s, r, g) /\ H(IF g THEN <<"gateA|" \o s \o "|" \o r, "sreq|" \o s \o "|" \o r>> ELSE <<"sreq|" \o s \o "|" \o r>>)
 EAns(s, r) == Ans(s, r) /\ H(<<"ans|" \o s \o "|" \o r>>)
-ERet(s, r) == HRet(s, r) /\ H(<<"ret|" \o s \o "|" \o r>>)
+ERet(s, r, g) == HRet(s, r, g) /\ H(IF g THEN <<"gateA|" \o s \o "|" \o r, "ret|" \o s \o "|" \o r>> ELSE <<"ret|" \o s \o "|" \o r>>)
 ESa(s, g) == Sa(s, g) /\ H(IF g THEN <<"gateA|" \o s \o "|sa", "sa|" \o s>> ELSE <<"sa|" \o s>>)
 EGet(g, s, t, i, hg) == Get(g, s, t, i, hg) /\ H((IF hg THEN <<"gateF|" \o g>> ELSE <<>>) \o <<"get|" \o g \o "|" \o s \o "|" \o t \o "|" \o IdxName(i)>>)
 ECut(e) == Cut(e) /\ H(<<"cut|" \o e>>)
@@ -36,7 +48,7 @@ GIdx(g) == CHOOSE i \in 1..Len(GetSeq) : GetSeq[i] = g
 GetOrder(g) == \A g2 \in Gets : GIdx(g2) < GIdx(g) => x[g2].pc # "idle"
 
 GEnv ==
-  \/ \E s \in Sess, r \in Reqs : EPost(s, r) \/ (\E g \in BOOLEAN : EEmit(s, r, g)) \/ ESreq(s, r) \/ EAns(s, r) \/ ERet(s, r)
+  \/ \E s \in Sess, r \in Reqs : EPost(s, r) \/ EAns(s, r) \/ (\E g \in BOOLEAN : EEmit(s, r, g) \/ ESreq(s, r, g) \/ ERet(s, r, g))
   \/ \E s \in Sess, g \in BOOLEAN : ESa(s, g)
   \/ \E g \in Gets, s \in Sess, t \in Streams, i \in -1..(MaxEmit + MaxSreq + MaxSa + 2), hg \in BOOLEAN : GetOrder(g) /\ EGet(g, s, t, i, hg)
   \/ \E e \in Exch : ECut(e)
@@ -46,14 +58,35 @@ GSdk == SdkNext /\ UNCHANGED hist
 GInit == Init /\ hist = <<>>
 GNext == GSdk \/ GEnv
 GSpec == GInit /\ [][GNext]_gvars
-SeamNext == GSdk \/ (~SdkEnabled /\ GEnv)
+\* seam level: the same environment actions, enabled only when the SDK is quiescent (named so that
+\* `-dump dot,actionlabels` labels every edge with the action and its arguments)
+Quiet == ~SdkEnabled
+SPost(s, r) == Quiet /\ EPost(s, r)
+SEmit(s, r, g) == Quiet /\ EEmit(s, r, g)
+SSreq(s, r, g) == Quiet /\ ESreq(s, r, g)
+SAns(s, r) == Quiet /\ EAns(s, r)
+SRet(s, r, g) == Quiet /\ ERet(s, r, g)
+SSa(s, g) == Quiet /\ ESa(s, g)
+SGet(g, s, t, i, hg) == Quiet /\ GetOrder(g) /\ EGet(g, s, t, i, hg)
+SCut(e) == Quiet /\ ECut(e)
+SDel(s) == Quiet /\ EDel(s)
+SOpen == Quiet /\ EOpen
+SeamNext ==
+  \/ GSdk
+  \/ \E s \in Sess, r \in Reqs : SPost(s, r) \/ SAns(s, r) \/ (\E g \in BOOLEAN : SEmit(s, r, g) \/ SSreq(s, r, g) \/ SRet(s, r, g))
+  \/ \E s \in Sess, g \in BOOLEAN : SSa(s, g)
+  \/ \E g \in Gets, s \in Sess, t \in Streams, i \in -1..(MaxEmit + MaxSreq + MaxSa + 2), hg \in BOOLEAN : SGet(g, s, t, i, hg)
+  \/ \E e \in Exch : SCut(e)
+  \/ \E s \in Sess : SDel(s)
+  \/ SOpen
 SeamSpec == GInit /\ [][SeamNext]_gvars
 MCView == vars
 
 \* export for -simulate: every quiescent state is the end of a complete script
-Quiet == ~SdkEnabled
 SdkEnabledExact == SdkEnabled <=> ENABLED SdkNext
-Export == IF Quiet /\ Len(hist) >= 3 THEN PrintT(ToJson([steps |-> hist])) ELSE TRUE
+Export == IF Quiet /\ Len(hist) >= 3
+          THEN PrintT(ToJson([store |-> cfg.store, json |-> cfg.json, stateless |-> cfg.stateless, prime |-> cfg.prime, steps |-> hist]))
+          ELSE TRUE
 
 \* reachability witnesses (each must be VIOLATED, otherwise the configuration is vacuous)
 W_NoReplay == \A g \in Gets : recv[g] = <<>>
